@@ -274,6 +274,11 @@ fn base_messages(rng: &mut Rng, tier: Tier, obs: &mut Obs) -> Vec<Vec<u8>> {
     for _ in 0..n {
         if rng.chance(1, 96) {
             // inputs beyond 64 KiB: nothing bounds a reader to 16 bits
+            if let Some(b) = crate::props::c05_c10::beyond_64k(rng, &sw) {
+                obs.count("probe:input-beyond-64k");
+                out.push(b);
+                continue;
+            }
             let dl = *rng.pick(&[65_530usize, 65_536, 65_541, 70_000]);
             let has_o = rng.bool();
             let m = SpecMessage::Data {
